@@ -4,7 +4,7 @@
 From Coq Require Import List ZArith Bool Sorted.
 From Coq.Strings Require Import Byte.
 Import ListNotations.
-From SV Require Import Text C12_Model C12_Lemmas C12_Gap.
+From SV Require Import Text C12_Model C12_Lemmas C12_Gap C12_Modes.
 Local Open Scope Z_scope.
 
 (* P0, every mode (need_start always/once/never x need_stop), every sequence, every rf and minlen -- no hypothesis:
@@ -134,6 +134,115 @@ Theorem C12_frame_start_residues : forall data frame, frame_ok frame = true ->
 Proof. exact frame_start_residues. Qed.
 Print Assumptions C12_frame_start_residues.
 
+(* EVERY mode (need_start always/once/never x need_stop), every sequence, rf and minlen: the result is, frame by frame in
+   the requested order, the specification of the mode over the frame's start positions and stop end positions --
+   spec_always: the pairing above plus, for need_stop=False, one ORF from the first start at or after the last stop to
+   len(seq); spec_chain: from the first start (once) or the first residue of the frame (never) through the consecutive
+   stops, a last link to len(seq) for need_stop=False, no link beginning at or after the end of the last residue --
+   mirrored for backward frames and filtered by minlen. The list equality is soundness and completeness at once. *)
+Theorem C12_orf_modes_spec : forall rf ns need_stop minlen s,
+  find_orfs rf ns need_stop minlen s =
+  ROk (concat (map (fun f => filter (fun o => o_stop o - o_start o >=? minlen)
+                               (map (mk_orf f (Z.of_nat (length s)))
+                                    (spec_mode ns need_stop (frame_fs s f) (frame_last s f) (Z.of_nat (length s))
+                                               (frame_starts s f) (frame_stops s f))))
+                   (frames_of rf))).
+Proof. exact orf_modes_spec. Qed.
+Print Assumptions C12_orf_modes_spec.
+
+(* first-principles meaning, need_start='always' (both need_stop): (a, e) is listed iff a is a start of the frame that no
+   stop separates from an earlier start (every earlier start is cut off by a stop ending at or before a), and e is the
+   end of the first stop ending after a -- or, for need_stop=False only, len(seq) when no stop ends after a *)
+Theorem C12_always_meaning : forall need_stop s f a e,
+  let starts := frame_starts s f in let stops := frame_stops s f in let L := Z.of_nat (length s) in
+  In (a, e) (spec_always need_stop L starts stops 0) <->
+  In a starts /\
+  (forall a', In a' starts -> a' < a -> exists e', In e' stops /\ a' < e' /\ e' <= a) /\
+  ((In e stops /\ a < e /\ forall e', In e' stops -> e' < e -> e' <= a) \/
+   (need_stop = false /\ e = L /\ forall e', In e' stops -> e' <= a)).
+Proof. exact always_meaning_frame. Qed.
+Print Assumptions C12_always_meaning.
+
+(* first-principles meaning, need_start='once' / 'never': (a, e) is listed iff a lies before the end of the last
+   residue and is the origin i0 (the first start of the frame for 'once' -- nothing is listed without one -- and the
+   first residue of the frame for 'never') or the end of a stop after the origin, and e is the end of the first stop
+   ending after a -- or, for need_stop=False only, len(seq) when no stop ends after a *)
+Theorem C12_chain_meaning : forall need_stop s f a e,
+  let stops := frame_stops s f in let L := Z.of_nat (length s) in let last := frame_last s f in
+  let link i0 := a < last /\ (a = i0 \/ (In a stops /\ i0 < a)) /\
+                 ((In e stops /\ a < e /\ forall e', In e' stops -> e' < e -> e' <= a) \/
+                  (need_stop = false /\ e = L /\ forall e', In e' stops -> e' <= a)) in
+  (In (a, e) (spec_mode NSOnce need_stop (frame_fs s f) last L (frame_starts s f) stops) <->
+     exists a0 rest, frame_starts s f = a0 :: rest /\ link a0) /\
+  (In (a, e) (spec_mode NSNever need_stop (frame_fs s f) last L (frame_starts s f) stops) <-> link (frame_fs s f)).
+Proof. exact (fun need_stop s f a e => conj (frame_spec_meaning NSOnce need_stop s f a e)
+                                              (frame_spec_meaning NSNever need_stop s f a e)). Qed.
+Print Assumptions C12_chain_meaning.
+
+(* order and exactly-once, every mode: the specification of a frame lists its intervals in increasing order on the strand
+   that is read, each one ending before the next begins, none twice; with minlen=0 the reported list of the frame is
+   exactly this list (mirrored for backward frames), so every listed interval is reported exactly once, in this order *)
+Theorem C12_modes_ordered : forall ns need_stop s f,
+  let spec := spec_mode ns need_stop (frame_fs s f) (frame_last s f) (Z.of_nat (length s)) (frame_starts s f) (frame_stops s f) in
+  StronglySorted (fun p q => snd p <= fst q) spec /\ Forall (fun p => fst p < snd p) spec /\ NoDup spec /\
+  frame_orfs ns need_stop 0 s f = ROk (map (mk_orf f (Z.of_nat (length s))) spec).
+Proof. exact (fun ns need_stop s f => match frame_spec_ordered ns need_stop s f with
+                                       | conj A (conj B C) => conj A (conj B (conj C (frame_modes_min0 ns need_stop s f))) end). Qed.
+Print Assumptions C12_modes_ordered.
+
+(* the chain modes tile the frame: the first listed interval begins at the origin (first start for 'once', first residue of the
+   frame for 'never'), every further one exactly where the previous one ends; without a start 'once' lists nothing *)
+Theorem C12_chain_tiles : forall need_stop s f,
+  let spec ns := spec_mode ns need_stop (frame_fs s f) (frame_last s f) (Z.of_nat (length s)) (frame_starts s f) (frame_stops s f) in
+  match frame_starts s f with
+  | [] => spec NSOnce = []
+  | a0 :: _ => tiles a0 (spec NSOnce)
+  end /\ tiles (frame_fs s f) (spec NSNever).
+Proof. exact frame_chain_tiles. Qed.
+Print Assumptions C12_chain_tiles.
+
+(* BioBasket.find_orfs is the concatenation, in basket order, of the per-sequence results, every ORF carrying the
+   requested feature type and the id of its own sequence; an empty basket raises TypeError (reduce of an empty list) *)
+Theorem C12_basket_map : forall ftype rf ns need_stop minlen seqs,
+  basket_find_orfs ftype rf ns need_stop minlen seqs =
+  match seqs with
+  | [] => FErr (bs "TypeError"%bs)
+  | _ => FOk (concat (map (fun sq => map (mkfeat ftype (fst sq)) (orfs_list rf ns need_stop minlen (snd sq))) seqs))
+  end /\
+  forall s, find_orfs rf ns need_stop minlen s = ROk (orfs_list rf ns need_stop minlen s).
+Proof. exact (fun ftype rf ns need_stop minlen seqs => conj (basket_map ftype rf ns need_stop minlen seqs)
+                                                             (find_orfs_total rf ns need_stop minlen)). Qed.
+Print Assumptions C12_basket_map.
+
+(* the ORF feature objects as observables: type, seqid, and interval/strand/rf satisfying the invariants with respect to
+   the sequence the feature names *)
+Theorem C12_feature_observables : forall ftype rf ns need_stop minlen seqs ft,
+  In ft (concat (map (fun sq => map (mkfeat ftype (fst sq)) (orfs_list rf ns need_stop minlen (snd sq))) seqs)) ->
+  ft_type ft = ftype /\
+  exists sq, In sq seqs /\ ft_seqid ft = fst sq /\ In (ft_orf ft) (orfs_list rf ns need_stop minlen (snd sq)) /\
+    let o := ft_orf ft in
+    0 <= o_start o /\ o_start o < o_stop o /\ o_stop o <= Z.of_nat (length (snd sq)) /\
+    minlen <= o_stop o - o_start o /\ In (o_rf o) (frames_of rf) /\ o_plus o = (o_rf o >=? 0).
+Proof. exact feature_observables. Qed.
+Print Assumptions C12_feature_observables.
+
+(* minlen and the filter helpers: find_orfs(minlen=m) is find_orfs() followed by .filter(len_ge=m) (or len_min=m), for
+   sequences and baskets, in every mode; a later len_ge filter composes with minlen (the larger bound counts); every
+   len_<op> filter keeps exactly the features whose length passes the test *)
+Theorem C12_minlen_is_len_ge : forall ftype rf ns need_stop m v op seqs, op = OpGe \/ op = OpMin ->
+  basket_find_orfs ftype rf ns need_stop m seqs =
+    fmap_res (filter_len op m) (basket_find_orfs ftype rf ns need_stop 0 seqs) /\
+  fmap_res (filter_len op v) (basket_find_orfs ftype rf ns need_stop m seqs) =
+    basket_find_orfs ftype rf ns need_stop (Z.max m v) seqs.
+Proof. exact (fun ftype rf ns need_stop m v op seqs H => conj (minlen_is_len_ge ftype rf ns need_stop m op seqs H)
+                                                               (len_ge_compose ftype rf ns need_stop m v op seqs H)). Qed.
+Print Assumptions C12_minlen_is_len_ge.
+
+Theorem C12_filter_len_spec : forall op v l ft,
+  In ft (filter_len op v l) <-> In ft l /\ lenop_test op (o_stop (ft_orf ft) - o_start (ft_orf ft)) v = true.
+Proof. exact filter_len_spec. Qed.
+Print Assumptions C12_filter_len_spec.
+
 (* the witnesses of the repaired defects (never_frame_start, gap_tail) now satisfy the property *)
 Example C12_witness_repaired :
   find_orfs RFbwd NSNever true 0 (bs "TTATTTCAT"%bs) = ROk [mkorf 0 9 false (-1); mkorf 5 8 false (-2)] /\
@@ -164,3 +273,22 @@ Example C12_witness_gapped :
 Proof. exact (conj eq_refl eq_refl). Qed.
 Example C12_witness_gapfree : forallb (fun c => negb (is_gap c)) (bs "AUGCCCTAAUUAGGGCAU"%bs) = true.
 Proof. exact eq_refl. Qed.
+
+(* non-vacuity of the mode specifications and of the basket layer: every mode lists something on a concrete frame, the
+   basket result carries both sequence ids and a custom feature type, the len filter and minlen agree *)
+Example C12_witness_mode_specs :
+  let s := bs "ATGAAATAACCCATGCCC--"%bs in
+  spec_mode NSAlways false (frame_fs s 0) (frame_last s 0) 20 (frame_starts s 0) (frame_stops s 0) = [(0, 9); (12, 20)] /\
+  spec_mode NSOnce false (frame_fs s 0) (frame_last s 0) 20 (frame_starts s 0) (frame_stops s 0) = [(0, 9); (9, 20)] /\
+  spec_mode NSNever true (frame_fs s 0) (frame_last s 0) 20 (frame_starts s 0) (frame_stops s 0) = [(0, 9)] /\
+  spec_mode NSNever false (frame_fs s 1) (frame_last s 1) 20 (frame_starts s 1) (frame_stops s 1) = [(1, 4); (4, 20)] /\
+  frame_last s 0 = 18 /\ frame_fs s 1 = 1.
+Proof. exact (conj eq_refl (conj eq_refl (conj eq_refl (conj eq_refl (conj eq_refl eq_refl))))). Qed.
+Example C12_witness_basket :
+  basket_find_orfs (bs "CDS"%bs) RFboth NSAlways true 0
+    [(bs "a"%bs, bs "ATGAAATAA"%bs); (bs "b"%bs, bs "TTATTTCATCC"%bs)] =
+  FOk [mkfeat (bs "CDS"%bs) (bs "a"%bs) (mkorf 0 9 true 0); mkfeat (bs "CDS"%bs) (bs "b"%bs) (mkorf 0 9 false (-3))] /\
+  wf_C12_basket RFboth NSAlways true 0 [(bs "a"%bs, bs "ATGAAATAA"%bs); (bs "b"%bs, bs "TTATTTCATCC"%bs)] = true /\
+  fmap_res (filter_len OpGt 9) (basket_find_orfs (bs "ORF"%bs) RFfwd NSNever false 0 [(bs "a"%bs, bs "ATGAAATAAC"%bs)]) =
+  FOk [].
+Proof. exact (conj eq_refl (conj eq_refl eq_refl)). Qed.
